@@ -631,3 +631,64 @@ silent('c08-early-return-chain', ['C08', 'C07'],
                     )
                 else:
                     result = False""")])
+
+# ------------------------------------------------------------------ C09
+fire('c09-pick-ignore-fallback', 'C09',
+     [(POL, "    if ((conf.oslo_policy.policy_file == new_default_policy_file) and\n            fallback_to_json_file):",
+       "    if ((conf.oslo_policy.policy_file == new_default_policy_file) or\n            fallback_to_json_file):")], 'C09.PICK')
+fire('c09-pick-location', 'C09',
+     [(POL, "        elif location in [cfg.Locations.opt_default,\n                          cfg.Locations.set_default]:",
+       "        elif location not in [cfg.Locations.opt_default,\n                          cfg.Locations.set_default]:")], 'C09.PICK')
+fire('c09-pick-location-user', 'C09',
+     [(POL, "        elif location in [cfg.Locations.opt_default,\n                          cfg.Locations.set_default]:",
+       "        elif location in [cfg.Locations.opt_default,\n                          cfg.Locations.set_default,\n                          cfg.Locations.user]:")], 'C09.PICK')
+fire('c09-pick-json-when-yaml-exists', 'C09',
+     [(POL, "        if conf.find_file(conf.oslo_policy.policy_file):\n            policy_file = conf.oslo_policy.policy_file\n        elif location in",
+       "        if False:\n            policy_file = conf.oslo_policy.policy_file\n        elif location in")], 'C09.PICK')
+fire('c09-init-ignores-arg', 'C09',
+     [(POL, "        self.policy_file = policy_file or pick_default_policy_file(\n            self.conf, fallback_to_json_file=fallback_to_json_file)",
+       "        self.policy_file = pick_default_policy_file(\n            self.conf, fallback_to_json_file=fallback_to_json_file)")], 'C09.FILE-SRC')
+fire('c09-init-fallback-const', 'C09',
+     [(POL, "            self.conf, fallback_to_json_file=fallback_to_json_file)", "            self.conf, fallback_to_json_file=False)")], 'C09.FILE-SRC')
+fire('c09-dotfiles', 'C09',
+     [(POL, "        for policy_file in [p for p in policy_files if not p.startswith('.')]:", "        for policy_file in [p for p in policy_files]:")], 'C09.WALK')
+fire('c09-no-sort', 'C09',
+     [(POL, "        policy_files.sort()\n", "")], 'C09.WALK')
+fire('c09-sort-reverse', 'C09',
+     [(POL, "        policy_files.sort()\n", "        policy_files.sort(reverse=True)\n")], 'C09.WALK')
+fire('c09-walk-subdirs', 'C09',
+     [(POL, "        policy_files = next(os.walk(path))[2]", "        policy_files = [os.path.join(d, f) for d, _, fs in os.walk(path) for f in fs]")], 'C09.WALK')
+fire('c09-dir-overwrite', 'C09',
+     [(POL, "                        path, self._load_policy_file, True, False)", "                        path, self._load_policy_file, True, True)")], 'C09.MODES')
+fire('c09-defaults-first', 'C09',
+     [(POL, """                if default.name in self.rules:
+                    continue
+
+                check = default.check""", """                check = default.check""")], 'C09.ORDER')
+fire('c09-dirs-reversed', 'C09',
+     [(POL, "                for path in existing_policy_dirs:\n                    self._walk_through_policy_directory(", "                for path in reversed(existing_policy_dirs):\n                    self._walk_through_policy_directory(")], 'C09.DIR-ORDER')
+fire('c09-missing-dir-raises', 'C09',
+     [(POL, "                except cfg.ConfigFilesNotFoundError:\n                    continue", "                except cfg.ConfigFilesNotFoundError:\n                    raise")], 'C09.SKIP')
+fire('c09-opt-policy-file', 'C09',
+     [(OPTS, "    cfg.StrOpt('policy_file',\n               default='policy.yaml',", "    cfg.StrOpt('policy_file',\n               default='policy.yml',")], 'C09')
+fire('c09-set-rules-update-reversed', 'C09',
+     [(POL, "        else:\n            self.rules.update(rules)", "        else:\n            rules.update(self.rules)\n            self.rules = rules")], 'C09.MODES')
+fire('c09-yaml-error-swallowed', 'C09',
+     [(POL, "            raise ValueError(str(e))\n    return parsed or {}", "            parsed = None\n    return parsed or {}")], 'C09.PARSE')
+fire('c09-main-after-dirs', 'C09',
+     [(POL, """                for path in existing_policy_dirs:
+                    self._walk_through_policy_directory(
+                        path, self._load_policy_file, True, False)
+""", """                for path in existing_policy_dirs:
+                    self._walk_through_policy_directory(
+                        path, self._load_policy_file, True, False)
+                if self.policy_path:
+                    self._load_policy_file(self.policy_path, True,
+                                           overwrite=False)
+""")], 'C09.ORDER')
+silent('c09-sorted-call', 'C09',
+       [(POL, "        policy_files = next(os.walk(path))[2]\n        policy_files.sort()\n", "        policy_files = sorted(next(os.walk(path))[2])\n")])
+silent('c09-no-debug-logs', 'C09',
+       [(POL, "            LOG.debug('Searching old policy.json file.')\n", "")])
+silent('c09-changed-init-false', ['C09', 'C10'],
+       [(POL, "        policy_file_rules_changed = False\n\n        if self.use_conf:", "        policy_file_rules_changed = None\n\n        if self.use_conf:")])
